@@ -569,3 +569,128 @@ def corr_css_stream(check, ctx, c, rng):
                 mm = m.rsplit('|', 1)[0]
                 if norm(mm) != norm(line):
                     ctx.disagree('StreamWriter over CPython inner codecs', w, line, mm)
+
+
+# ---------------------------------------------------------------------------------------------------
+# reset(): two documents through one decoder / encoder object (model: DSt.reset / ESt.reset)
+RESET_FINDING = 'C07-reset-keeps-encoding'
+
+
+def corr_css_reset(check, ctx, c, rng):
+    lines, cases = [], []
+    for _ in range(ctx.n(500, 10000)):
+        docs = []
+        for _k in range(2):
+            text = css_text(rng)
+            e = rng.choice(MODEL_NAMES[:10])
+            try:
+                data = codecs.getencoder('css')(text, encoding=e)[0] if rng.random() < 0.6 else text.encode(e)
+            except (UnicodeEncodeError, LookupError, ValueError):
+                data = b''
+            n = len(data)
+            cuts = tuple(sorted(set(rng.randint(0, n) for _ in range(rng.randint(0, 3)))))
+            docs.append(cut(data, cuts))
+        given = rng.choice([None, None, None] + MODEL_NAMES[:10])
+        force = rng.random() < 0.6
+        lines.append('rdec %s %d %d %s' % ('none' if given is None else enc(given), force, len(docs[0]),
+                                           ' '.join(encb(p) for p in docs[0] + docs[1])))
+        cases.append(('rdec', docs, given, force))
+    for _ in range(ctx.n(300, 6000)):
+        docs = []
+        for _k in range(2):
+            text = css_text(rng)
+            n = len(text)
+            cuts = tuple(sorted(set(rng.randint(0, n) for _ in range(rng.randint(0, 3)))))
+            docs.append(cut(text, cuts))
+        given = rng.choice([None, None, None] + MODEL_NAMES[:10])
+        lines.append('renc %s %d %s' % ('none' if given is None else enc(given), len(docs[0]),
+                                        ' '.join(enc(p) for p in docs[0] + docs[1])))
+        cases.append(('renc', docs, given, None))
+    out = ctx.driver(lines) if ctx.model_ok else [None] * len(lines)
+    known_names = [norm_name(x) for x in MODEL_NAMES]
+    for (kind, docs, given, force), m in zip(cases, out):
+        if kind == 'rdec':
+            d = c.IncrementalDecoder(encoding=given, force=force)
+            w = {'call': 'IncrementalDecoder+reset', 'docs': [[p.hex() for p in doc] for doc in docs],
+                 'encoding': given, 'force': force}
+            totals, skip, region = [], False, False
+            for i, doc in enumerate(docs):
+                try:
+                    totals.append(''.join(d.decode(p, False) for p in doc) + d.decode(b'', True))
+                except UnicodeError:
+                    totals.append(None)
+                except (LookupError, ValueError, TypeError):
+                    skip = True
+                    break
+                if d.encoding is not None and norm_name(d.encoding) not in known_names:
+                    skip = True
+                    break
+                if i == 0:
+                    if totals[0] is None:
+                        break
+                    region = d.encoding != given      # `self.encoding` was overwritten by the detector
+                    d.reset()
+            if skip:
+                ctx.count('rdec:encoding name outside the model (skipped)')
+                continue
+            ctx.case(key=('rdec', tuple(map(tuple, docs)), given, force), nontrivial=region, kind='css-reset-dec')
+            if len(totals) == 2:
+                try:
+                    fresh = codecs.getdecoder('css')(b''.join(docs[1]), encoding=given, force=force)[0]
+                except UnicodeError:
+                    fresh = None
+                except (LookupError, ValueError, TypeError):
+                    fresh = totals[1]
+                try:
+                    name2 = used_encoding(c, b''.join(docs[1]), given, force)
+                    agree2 = not outside_agree(name2, b''.join(docs[1])) and \
+                        not (d.encoding and outside_agree(d.encoding, b''.join(docs[1])))
+                except Exception:
+                    agree2 = False
+                if agree2 and totals[1] != fresh:
+                    ctx.violate('a reset incremental decoder behaves like a fresh one', w,
+                                {'after_reset': 'raises' if totals[1] is None else totals[1],
+                                 'fresh': 'raises' if fresh is None else fresh, 'self.encoding': d.encoding},
+                                known=RESET_FINDING if region else None)
+            got = ' | '.join(('RAISE' if t is None else enc(t)) for t in totals) + (' | -' if len(totals) == 1 else '')
+            if m is not None and norm(m) != norm(got):
+                ctx.disagree('IncrementalDecoder with reset()', w, got, m)
+        else:
+            e = c.IncrementalEncoder(encoding=given)
+            w = {'call': 'IncrementalEncoder+reset', 'docs': docs, 'encoding': given}
+            totals, skip, region = [], False, False
+            for i, doc in enumerate(docs):
+                try:
+                    totals.append(b''.join(x for x in [e.encode(p, False) for p in doc] + [e.encode('', True)] if x))
+                except UnicodeError:
+                    totals.append(None)
+                except (LookupError, ValueError, TypeError):
+                    skip = True
+                    break
+                if e.encoding is not None and norm_name(e.encoding) not in known_names:
+                    skip = True
+                    break
+                if i == 0:
+                    if totals[0] is None:
+                        break
+                    region = e.encoding != given
+                    e.reset()
+            if skip:
+                ctx.count('renc:encoding name outside the model (skipped)')
+                continue
+            ctx.case(key=('renc', tuple(map(tuple, docs)), given), nontrivial=region, kind='css-reset-enc')
+            if len(totals) == 2:
+                try:
+                    fresh = codecs.getencoder('css')(''.join(docs[1]), encoding=given)[0]
+                except UnicodeError:
+                    fresh = None
+                except (LookupError, ValueError, TypeError):
+                    fresh = totals[1]
+                if totals[1] != fresh:
+                    ctx.violate('a reset incremental encoder behaves like a fresh one', w,
+                                {'after_reset': 'raises' if totals[1] is None else totals[1].hex(),
+                                 'fresh': 'raises' if fresh is None else fresh.hex(), 'self.encoding': e.encoding},
+                                known=RESET_FINDING if region else None)
+            got = ' | '.join(('RAISE' if t is None else encb(t)) for t in totals) + (' | -' if len(totals) == 1 else '')
+            if m is not None and norm(m) != norm(got):
+                ctx.disagree('IncrementalEncoder with reset()', w, got, m)
